@@ -134,6 +134,20 @@ def observe(res, d, fpath=None):
     return o
 
 
+def spell_number(text, variant):
+    """another spelling of the same decimal number (texts that are no plain decimal number are left alone)"""
+    if not re.fullmatch(r"-?\d+(\.\d+)?", text) or variant == 0:
+        return text
+    neg, body = text.startswith("-"), text.lstrip("-")
+    if variant == 2 and not neg:
+        return "+" + body
+    if variant == 3:
+        return text + ("0" if "." in body else ".0")
+    ip, _, fp = body.partition(".")
+    digits = (ip + fp).lstrip("0") or "0"
+    return ("-" if neg else "") + digits + ("e-%d" % len(fp) if variant == 1 and neg is False else "E-%d" % len(fp))
+
+
 def c19_case(rec, root):
     """builds files + argv for one Cli.tla configuration, runs it, returns the trace event"""
     c = rec["cfg"]
@@ -150,6 +164,9 @@ def c19_case(rec, root):
         # ... or no text at all (an empty value)
         V = {k: dict(v) for k, v in V.items()}
         V["a"]["text"], V["am"]["text"], V["k"]["text"], V["km"]["text"] = "", "", "", ""
+    # spelling of the numbers (options and metadata): plain decimals, exponent notation, an explicit plus sign, a
+    # trailing zero - the same number for a float parser, in range or out of range all the same
+    V = {k: {st: spell_number(val, (rec.get("case", 0) // 9 + i) % 4) for st, val in v.items()} for i, (k, v) in enumerate(sorted(V.items()))}
     meta = []
     legacy = c.get("legacy", False)
     if c["ameta"] != "absent":
